@@ -650,6 +650,15 @@ impl FdlActiveStation {
             now > (last_bus_activity + self.p.slot_time())
         }
     }
+
+    /// Drop whatever is left in the receive buffer after the slot time has expired.
+    ///
+    /// A partial or undecodable telegram belongs to the message cycle that has just timed out.
+    /// If it stayed in the buffer it would be prepended to the next reply and destroy it as well.
+    fn discard_pending_rx(&mut self, now: crate::time::Instant, phy: &mut impl ProfibusPhy) {
+        phy.receive_data(now, |buffer| (buffer.len(), ()));
+        self.pending_bytes = 0;
+    }
 }
 
 impl FdlActiveStation {
@@ -798,6 +807,7 @@ impl FdlActiveStation {
 
         if self.check_slot_expired(now) {
             log::trace!("No reply from #{poll_address}");
+            self.discard_pending_rx(now, phy);
             Ok(GapPollResponse::NoResponse)
         } else {
             Err(PollDone::waiting_for_bus())
@@ -1264,6 +1274,7 @@ impl FdlActiveStation {
         }
 
         if self.check_slot_expired(now) {
+            self.discard_pending_rx(now, phy);
             app.handle_timeout(now, self, address);
             self.state.transition_use_token(data);
             *self.state.get_use_token_first_cycle_done() = true;
